@@ -1,0 +1,201 @@
+//! Verification shim -- compiled only with the cargo feature `verif`.
+//!
+//! Provides drop-in replacements for the std atomics used by this crate that report every shared access
+//! to a deterministic "baton" scheduler: a registered thread is parked *before* each shared access and a
+//! driver thread grants exactly one access at a time. Unregistered threads (and every thread while no
+//! schedule is active) pass straight through to the std operation.
+//!
+//! Nothing in here changes the behaviour of the wrapped operations: each method performs the very same
+//! std atomic operation with the very same `Ordering`; `compare_exchange_weak` is executed as the strong
+//! version so that replays are deterministic.
+
+use std::sync::atomic::Ordering;
+use std::sync::{Mutex, Condvar, OnceLock};
+use std::cell::Cell;
+
+/// One granted step, as seen by the driver
+#[derive(Debug, Clone)]
+pub struct Access {
+    pub tid:   usize,
+    pub addr:  usize,
+    pub kind:  &'static str,
+    pub seen:  u64,
+    pub wrote: Option<u64>,
+    pub ok:    bool,
+}
+
+struct State {
+    turn:    Option<usize>,
+    arrived: Vec<bool>,
+    done:    Vec<bool>,
+    log:     Vec<Access>,
+    active:  bool,
+    abort:   bool,
+}
+struct Sched { m: Mutex<State>, cv: Condvar }
+static SCHED: OnceLock<Sched> = OnceLock::new();
+fn sched() -> &'static Sched {
+    SCHED.get_or_init(|| Sched {
+        m:  Mutex::new(State { turn: None, arrived: vec![], done: vec![], log: vec![], active: false, abort: false }),
+        cv: Condvar::new(),
+    })
+}
+thread_local! { static TID: Cell<Option<usize>> = Cell::new(None); }
+
+static ORIGIN: std::sync::atomic::AtomicU32 = std::sync::atomic::AtomicU32::new(0);
+/// the value every ring-buffer sequence counter starts from (default 0)
+pub fn sequence_origin() -> u32 { ORIGIN.load(Ordering::Relaxed) }
+pub fn set_sequence_origin(origin: u32) { ORIGIN.store(origin, Ordering::Relaxed) }
+
+fn lock_state() -> std::sync::MutexGuard<'static, State> {
+    match sched().m.lock() { Ok(g) => g, Err(p) => p.into_inner() }
+}
+
+// driver API ------------------------------------------------------------------------------------------
+
+/// starts a schedule for `n_threads` threads (ids `0..n_threads`)
+pub fn reset(n_threads: usize) {
+    let mut st = lock_state();
+    st.turn = None;
+    st.arrived = vec![false; n_threads];
+    st.done = vec![false; n_threads];
+    st.log.clear();
+    st.active = true;
+    st.abort = false;
+}
+/// ends the schedule: every parked thread runs free from here on
+pub fn deactivate() {
+    let mut st = lock_state();
+    st.active = false;
+    st.turn = None;
+    sched().cv.notify_all();
+}
+/// ends the schedule making every parked thread panic out of its current access (used for threads that can never finish)
+pub fn abort_all() {
+    let mut st = lock_state();
+    st.abort = true;
+    st.active = false;
+    st.turn = None;
+    sched().cv.notify_all();
+}
+/// to be called by a worker thread before its first shared access
+pub fn register(tid: usize) { TID.with(|t| t.set(Some(tid))); }
+/// to be called by a worker thread after its last shared access
+pub fn finished(tid: usize) {
+    TID.with(|t| t.set(None));
+    let mut st = lock_state();
+    if tid < st.done.len() { st.done[tid] = true; }
+    st.turn = None;
+    sched().cv.notify_all();
+}
+/// grants one step to `tid`; returns false if that thread has finished its program
+pub fn grant(tid: usize) -> bool {
+    let s = sched();
+    let mut st = lock_state();
+    while !st.arrived[tid] && !st.done[tid] { st = match s.cv.wait(st) { Ok(g) => g, Err(p) => p.into_inner() }; }
+    if st.done[tid] { return false }
+    st.arrived[tid] = false;
+    st.turn = Some(tid);
+    s.cv.notify_all();
+    while !(st.arrived[tid] || st.done[tid]) { st = match s.cv.wait(st) { Ok(g) => g, Err(p) => p.into_inner() }; }
+    true
+}
+/// true if `tid` is parked before a shared access (false: finished). Blocks until one of the two is known.
+pub fn is_parked(tid: usize) -> bool {
+    let s = sched();
+    let mut st = lock_state();
+    while !st.arrived[tid] && !st.done[tid] { st = match s.cv.wait(st) { Ok(g) => g, Err(p) => p.into_inner() }; }
+    !st.done[tid]
+}
+pub fn take_log() -> Vec<Access> { std::mem::take(&mut lock_state().log) }
+/// appends a driver/worker-made entry to the log (operation results and the like)
+pub fn note(tid: usize, kind: &'static str, a: u64, b: Option<u64>, ok: bool) {
+    lock_state().log.push(Access { tid, addr: 0, kind, seen: a, wrote: b, ok });
+}
+
+// thread side -----------------------------------------------------------------------------------------
+
+fn before() -> Option<usize> {
+    let tid = TID.with(|t| t.get())?;
+    let s = sched();
+    let mut st = lock_state();
+    if !st.active {
+        if st.abort && !std::thread::panicking() { drop(st); panic!("verif: schedule aborted"); }
+        return None
+    }
+    st.arrived[tid] = true;
+    s.cv.notify_all();
+    while st.turn != Some(tid) {
+        if !st.active {
+            if st.abort && !std::thread::panicking() { drop(st); panic!("verif: schedule aborted"); }
+            return None
+        }
+        st = match s.cv.wait(st) { Ok(g) => g, Err(p) => p.into_inner() };
+    }
+    st.turn = None;
+    Some(tid)
+}
+fn after(tid: Option<usize>, addr: usize, kind: &'static str, seen: u64, wrote: Option<u64>, ok: bool) {
+    if let Some(tid) = tid { lock_state().log.push(Access { tid, addr, kind, seen, wrote, ok }); }
+}
+/// a scheduling point for a plain (non-atomic) shared access or a call into an external library object
+pub fn yield_point(label: &'static str, addr: usize) {
+    let t = before();
+    after(t, addr, label, 0, None, true);
+}
+/// a scheduling point that also reports a value
+pub fn yield_value(label: &'static str, addr: usize, value: u64) {
+    let t = before();
+    after(t, addr, label, value, None, true);
+}
+
+macro_rules! shim {
+    ($name:ident, $std:ty, $prim:ty) => {
+        #[repr(transparent)]
+        #[derive(Debug, Default)]
+        pub struct $name($std);
+        impl $name {
+            pub const fn new(v: $prim) -> Self { Self(<$std>::new(v)) }
+            fn addr(&self) -> usize { self as *const Self as usize }
+            pub fn load(&self, o: Ordering) -> $prim {
+                let t = before(); let v = self.0.load(o); after(t, self.addr(), "load", v as u64, None, true); v }
+            pub fn store(&self, v: $prim, o: Ordering) {
+                let t = before(); self.0.store(v, o); after(t, self.addr(), "store", 0, Some(v as u64), true); }
+            pub fn swap(&self, v: $prim, o: Ordering) -> $prim {
+                let t = before(); let old = self.0.swap(v, o); after(t, self.addr(), "swap", old as u64, Some(v as u64), true); old }
+            pub fn compare_exchange(&self, c: $prim, n: $prim, s: Ordering, f: Ordering) -> Result<$prim, $prim> {
+                let t = before();
+                let r = self.0.compare_exchange(c, n, s, f);
+                match r {
+                    Ok(v)  => after(t, self.addr(), "cas", v as u64, Some(n as u64), true),
+                    Err(v) => after(t, self.addr(), "cas", v as u64, None, false),
+                };
+                r
+            }
+            pub fn compare_exchange_weak(&self, c: $prim, n: $prim, s: Ordering, f: Ordering) -> Result<$prim, $prim> {
+                self.compare_exchange(c, n, s, f)
+            }
+            pub fn get_mut(&mut self) -> &mut $prim { self.0.get_mut() }
+            pub fn into_inner(self) -> $prim { self.0.into_inner() }
+        }
+    };
+}
+macro_rules! shim_arith {
+    ($name:ident, $prim:ty) => { impl $name {
+        pub fn fetch_add(&self, v: $prim, o: Ordering) -> $prim {
+            let t = before(); let old = self.0.fetch_add(v, o); after(t, self.addr(), "faa", old as u64, Some(old.wrapping_add(v) as u64), true); old }
+        pub fn fetch_sub(&self, v: $prim, o: Ordering) -> $prim {
+            let t = before(); let old = self.0.fetch_sub(v, o); after(t, self.addr(), "fas", old as u64, Some(old.wrapping_sub(v) as u64), true); old }
+    } };
+}
+shim!(AtomicU32,   std::sync::atomic::AtomicU32,   u32);   shim_arith!(AtomicU32, u32);
+shim!(AtomicU64,   std::sync::atomic::AtomicU64,   u64);   shim_arith!(AtomicU64, u64);
+shim!(AtomicUsize, std::sync::atomic::AtomicUsize, usize); shim_arith!(AtomicUsize, usize);
+shim!(AtomicBool,  std::sync::atomic::AtomicBool,  bool);
+
+/// `std::sync::atomic::fence` with a scheduling point
+pub fn fence(o: Ordering) {
+    let t = before();
+    std::sync::atomic::fence(o);
+    after(t, 0, "fence", 0, None, true);
+}
